@@ -18,7 +18,7 @@ def _norm_attr(attr):
 
 class C16(Machine):
     ID = "C16"
-    FAMILY_WEIGHTS = {"sparse": 3, "dense": 1, "canal": 2, "modular": 3, "maa": 2, "cascade": 2, "maa_cascade": 4, "degenerate": 1}
+    FAMILY_WEIGHTS = {"sparse": 3, "dense": 1, "canal": 2, "modular": 3, "maa": 2, "cascade": 2, "maa_cascade": 4, "degenerate": 1, "maa_deadpad": 1}
     NMAX = {"quick": 6, "thorough": 7}
     FMTS = ("bnet", "aeon", "api")
 
